@@ -14,7 +14,7 @@ import ast
 from ..dataflow import RD
 from ..exprmodel import handwritten_expr_classes
 from ..inline import Inliner
-from ..loader import AnalysisError, ClassInfo, FuncInfo, Tree, unparse, walk_function
+from ..loader import ancestors, AnalysisError, ClassInfo, FuncInfo, Tree, unparse, walk_function
 from ..paths import PathWalker
 from ..report import Check
 
@@ -69,6 +69,9 @@ def subs_guard(tree: Tree, cls: ClassInfo) -> tuple[bool, str]:
                         isinstance(s, ast.Return) and isinstance(s.value, ast.Name) and s.value.id == params[0] for s in ast.walk(node) if s in _direct_stmts(node.body)
                     )
                     if mentions_bound and returns_self:
+                        cmps = [n_ for n_ in ast.walk(node.test) if isinstance(n_, ast.Compare) and any(isinstance(x, ast.Name) and x.id == old for x in ast.walk(n_))]
+                        if any(not all(isinstance(o, (ast.Eq, ast.In, ast.Is)) for o in n_.ops) for n_ in cmps) or (isinstance(node.test, ast.UnaryOp) and isinstance(node.test.op, ast.Not)):
+                            return False, f"{c.name}.{name}: `if {unparse(node.test)[:60]}: return self` does not test that `{old}` IS one of the bound symbols"
                         wider = _guard_wider_than_own(tree, c, m, node.test)
                         if wider:
                             return False, f"{c.name}.{name}: `if {unparse(node.test)[:60]}: return self` also refuses symbols that are NOT bound by this sum ({wider}): their free occurrences in the summand are never substituted"
@@ -354,6 +357,18 @@ def check_cleanup(ctx: Check, tree: Tree) -> None:
         ok = bool(subs_names & deps)
         ctx.verdict(ok, "R-DROP", f"{POOLSUM}.cleanup::return::{unparse(ret.value)[:40]}", tree.loc(ret),
                     f"PoolSum.cleanup `{unparse(ret)[:60]}` applies the collected substitutions", None if ok else "single-valued indices are dropped without being substituted")
+        if not (isinstance(ret.value, ast.Call) and "PoolSum" in unparse(ret.value.func)):
+            # the bare summand may only be returned when no summation index is left
+            retained_names = {unparse(s.value.func.value) for s in walk_function(loop) if isinstance(s, ast.Expr) and isinstance(s.value, ast.Call)
+                              and isinstance(s.value.func, ast.Attribute) and s.value.func.attr in {"append", "add"}}
+            guards = [a for a in ancestors(ret) if isinstance(a, ast.If) and any(ret is n for b in a.body for n in ast.walk(b))]
+            def empty_test(t):
+                t_ = unparse(t).replace(" ", "")
+                return any(t_ in {f"len({r})==0", f"not{r}", f"{r}==[]", f"len({r})<1"} for r in retained_names)
+            ok3 = bool(guards) and all(empty_test(g.test) for g in guards)
+            ctx.verdict(ok3, "R-DROP", f"{POOLSUM}.cleanup::bare-summand-iff-no-index", tree.loc(ret),
+                        f"PoolSum.cleanup returns the bare summand only when no summation index is retained",
+                        None if ok3 else {"guards": [unparse(g.test) for g in guards]})
         if isinstance(ret.value, ast.Call) and "PoolSum" in unparse(ret.value.func):
             star = [a for a in ret.value.args if isinstance(a, ast.Starred)]
             ok2 = bool(star) and not isinstance(star[0].value, ast.Subscript)
